@@ -8,9 +8,14 @@
 //   - every report must be PREDICTED by the table (`races.predict`: the two functions' access records of that field
 //     conflict) — a report on a field the table calls disciplined means the extractor is unsound (disagreement);
 //   - the discipline verdict the harness works with is the model's (`races.field`, one line per table field);
-//   - every undisciplined field should be confirmed by a report (listed in the evidence; thorough tier).
+//   - every undisciplined field should be confirmed by a report (listed in the evidence).
 //
-// Each distinct (field, function pair) is one violation `races:<type>.<field>:<f1>+<f2>`: a genuine data race.
+// Violations (genuine data races): ONE per racy field, `races:<type>.<field>:<f1>+<f2>` where the pair is the first
+// conflicting pair of the lock table — a stable name; which pairs a run observes depends on the schedule, they are
+// listed in the violation text.  Races on memory that became reachable through an unsynchronised field (string
+// bytes, a map filled before the store) belong to that field's violation.  A race inside another package's memory
+// that no tracked field explains is `races:external:<f1>+<f2>`; a race at a library location the table does not
+// cover is `races:?.?:…` AND a disagreement with the model (the extractor is incomplete).
 package main
 
 import (
